@@ -869,11 +869,15 @@ async def run_case(world, ops=None, chooser=None, plan=None, probe=True):
                         obj[1].set_result(None)
                     quiescent = False
                 elif obj is not None:
-                    if not quiescent:
+                    if not quiescent:           # the executor hop needs a quiescent loop (see module docstring)
                         await settle()
                         link.pump()
+                        quiescent = True
+                        check_dead(True)
                         done_ops.append(('settle',))
                         snaps.append((len(replies()), ncompleted(), state['dead']))
+                        if state['dead']:
+                            return
                     if not obj[1].done():
                         obj[2]()
                         await asyncio.sleep(0)        # the wrap_future hop: the asyncio future is done now
